@@ -113,14 +113,15 @@ Definition dir_corner (s : st) (o : op) : option string :=
          the overlay's Readnod, like the reference, looks at the entry itself (C17-F23) *)
       if eres_nat_eqb (s_lnode (heap s) p) (s_node (heap s) p) then None
       else Some "dirfs-readnod-stat-follows-symlink"
-  | Mknod p _ _ =>
-      (* unix.Mknod fails on an existing name and dirFS then calls os.WriteFile(name, nil, 0):
-         the error is WriteFile's, and an existing regular file is truncated (C17-F20) *)
-      match s_leaf (heap s) p with
-      | inl (_, _, Some _) => Some "dirfs-mknod-fallback-writefile-on-existing-name"
-      | _ => None
-      end
   | _ => None
+  end.
+(* Mknod of a name that is taken: since fix bfd5027 (was C17-F20: dirFS then called
+   os.WriteFile(name, nil, 0), which answered with WriteFile's error and emptied an existing
+   regular file) this is inside the envelope; a wrong answer there keeps the old tag *)
+Definition mknod_taken (s : st) (o : op) : bool :=
+  match o with
+  | Mknod p _ _ => match s_leaf (heap s) p with inl (_, _, Some _) => true | _ => false end
+  | _ => false
   end.
 Definition on_dir_handle (s : st) (o : op) : bool :=
   match o with
@@ -153,6 +154,7 @@ Fixpoint check_dir_steps (s : st) (ops : list op) (obs : list out) : list string
       | Some t => if out_match sr r then [] else [String.append "viol:" t]
       | None =>
           if out_match sr r || link_err_order s o sr r then check_dir_steps s1 ops' obs'
+          else if mknod_taken s o then ["viol:dirfs-mknod-fallback-writefile-on-existing-name"]
           else if dir_lstat_size0 o sr r then "viol:dirfs-lstat-size-from-overlay" :: check_dir_steps s1 ops' obs'
           else ["viol:dirfs-diverges-inside-envelope"]
       end
@@ -180,10 +182,10 @@ Fixpoint check_dirm_steps (d : dst) (ops : list op) (obs : list out) : list stri
   | o :: ops', r :: obs' =>
       let '(d1, mr) := dirfs_step d o in
       (* a Mknod that reports failure and, by the model the observation agrees with, changed the host
-         (the fallback os.WriteFile(name, nil, 0) truncated an existing file): the later reads of the
-         sequence are compared with that model, so the truncation is an observed fact *)
+         (was C17-F20: the fallback os.WriteFile(name, nil, 0) truncated an existing file).  With the
+         model of the repaired code this cannot happen; the test stays armed for a model that says so *)
       let vt := match o with
-                | Mknod _ _ _ => if is_failure mr && out_match mr r && negb (st_eqb (d_host d1) (d_host d))
+                | Mknod _ _ _ => if mknod_taken (d_host d) o && is_failure mr && out_match mr r && negb (st_eqb (d_host d1) (d_host d))
                                  then ["viol:dirfs-mknod-fallback-writefile-on-existing-name"] else []
                 | _ => []
                 end in
@@ -209,8 +211,9 @@ Fixpoint dedup (l : list string) : list string :=
    names without ".."; Symlink and Link included).  Tags:
    - subfs-dotdot-escapes-root: a name with ".." whose joined path is not under the
      root, and the operation succeeded there;
-   - subfs-symlink-link-not-joined: Symlink / Link through the view differ from the
-     reference at root/name while they agree with the reference at the name as given;
+   - subfs-symlink-link-not-joined (was C17-F22, repaired by 44061d3): Symlink / Link
+     through the view differ from the reference at root/name AND from the model of the
+     repaired code, while their RESULT is the reference's at the names as given;
    - otherwise the corner of the parent's operation, as for plain cases. *)
 Fixpoint prefixb (a b : path) : bool :=
   match a, b with
@@ -218,12 +221,7 @@ Fixpoint prefixb (a b : path) : bool :=
   | x :: a', y :: b' => String.eqb x y && prefixb a' b'
   | _ :: _, [] => false
   end.
-Definition all_paths (o : op) : list path :=
-  match o with
-  | Link old new => [old; new]
-  | Symlink _ p => [p]
-  | o => sub_paths o
-  end.
+Definition all_paths (o : op) : list path := sub_paths o.
 Definition dotdot_in (o : op) : bool := negb (forallb no_dotdot (all_paths o)).
 Definition escapes (root : path) (o' : op) : bool := negb (forallb (prefixb root) (all_paths o')).
 Definition unjoined (o : op) : bool := match o with Symlink _ _ | Link _ _ => true | _ => false end.
@@ -237,11 +235,12 @@ Fixpoint check_sub_steps (b : backend) (root : path) (s : st) (ops : list op) (v
       let oi := if v && negb (dotdot_in o) then at_root root o else o' in
       let '(s1', sr) := spec_step s oi in
       let '(s1'', sr') := spec_step s o' in
+      let sr0 := snd (spec_step s o) in
       let vt :=
         if v && dotdot_in o && escapes root o' then
           (if is_failure r then [] else ["viol:subfs-dotdot-escapes-root"])
         else if out_match sr r && st_eqb s1 s1' then []
-        else if v && unjoined o && out_match sr' r && st_eqb s1 s1'' then ["viol:subfs-symlink-link-not-joined"]
+        else if v && unjoined o && out_match sr0 r && negb (out_match sr r) && negb (out_match mr r) then ["viol:subfs-symlink-link-not-joined"]
         else [String.append "viol:" (viol_tag b s o' sr' r)] in
       if out_match mr r then vt ++ check_sub_steps b root s1 ops' vias' obs'
       else vt ++ [String.append "mismatch:subfs-" (op_name o)]
